@@ -758,3 +758,34 @@ func H09s() {
 	check(rin.Type.Kind == wantIn, "a reference inside a list, output, notification, action input/output or nested grouping denotes the typedef of that scope before the module's")
 	check(rout.Type.Kind == Yint8, "a typedef declared in an inner scope is invisible outside it")
 }
+
+// H09bi: built-in names are unprefixed. A reference spelled prefix:NAME with NAME a built-in
+// type name and the prefix the module's own, an import's or an unknown one is a reference to a
+// typedef of that module, which cannot exist: an error. Unprefixed it is the built-in type.
+func H09bi() {
+	names := []string{"string", "int8", "uint8", "boolean", "int32", "binary", "empty"}
+	kinds := []TypeKind{Ystring, Yint8, Yuint8, Ybool, Yint32, Ybinary, Yempty}
+	k := symChoice(len(names))
+	pre := []string{"", "m:", "px:", "zz:"}[symChoice(4)]
+	site := symChoice(2)
+	ref := "type " + pre + names[k] + ";"
+	body := "leaf l { " + ref + " }"
+	if site == 1 {
+		body = "typedef t { " + ref + " } leaf l { type t; }"
+	}
+	m := `module m { namespace "urn:m"; prefix m; import x { prefix px; } ` + body + ` }`
+	x := `module x { namespace "urn:x"; prefix x; typedef other { type string; } }`
+	note(m)
+	ms, lerrs := hLoad(m, x)
+	check(len(lerrs) == 0, "the modules parse")
+	errs := ms.Process()
+	if len(errs) > 0 {
+		reach("rejected")
+		check(pre != "", "an unprefixed built-in name denotes the built-in type")
+		return
+	}
+	reach("resolved")
+	check(pre == "", "a prefixed name denotes a typedef of the module behind the prefix - never a built-in type: unknown, an error")
+	e := ToEntry(ms.Modules["m"]).Dir["l"]
+	check(e != nil && e.Type != nil && e.Type.Kind == kinds[k], "built-in names denote the built-in types")
+}
